@@ -249,7 +249,34 @@ pub fn full_walk_cases(r: &mut Rng, n: usize, n_prep: usize, sink: &mut Sink) {
     }
 }
 
+/// Trip-level outputs of a simulation made by TrainSimBuilder::make_speed_limit_train_sim(locations, save,
+/// simulation_days, scenario_year): the annualisation factor is 365.25 / simulation_days whatever the scenario year.
+fn builder_trip_cases(r: &mut Rng, n: usize, sink: &mut Sink) {
+    use crate::train::*;
+    for k in 0..n {
+        let train = gen_train(r, k % 3, k % 2 == 0);
+        let days = if k % 4 == 3 { None } else { Some(r.int(1, 60) as i32) };
+        let year = if k % 5 == 4 { None } else { Some(2020 + r.int(0, 30) as i32) };
+        let b = builder(&train, None, true);
+        let mut sim = match catch(std::panic::AssertUnwindSafe(|| b.make_speed_limit_train_sim(&location_map(), Some(1), days, year))) { Ok(Ok(s)) => s, _ => continue };
+        if has_hybrid(&sim.loco_con) { continue; }
+        let mut fails = vec![];
+        let fac = sim.get_scaling_factor(true);
+        let want = match days { Some(d) => 365.25 / d as f64, None => 365.25 };
+        chk(&mut fails, "annualisation factor of a simulation made by the builder", fac, want, 1.0);
+        chk(&mut fails, "factor without annualisation", sim.get_scaling_factor(false), 1.0, 1.0);
+        let (ef, er) = (sim.get_energy_fuel(true).value, sim.get_net_energy_res(true).value);
+        let e = consist_rated(&sim.loco_con) * 1000.0;
+        let mut o = Outs::new(); o.f("trip.energy_fuel", ef, e); o.f("trip.net_energy_res", er, e); o.f("trip.factor", fac, 1.0);
+        sink.put(Case { id: format!("trip_builder/{}", k), kind: "trip_outputs_builder".into(),
+            coq: format!("x_trip_outputs {} true {}", coq_consist(&sim.loco_con), copt(days.map(|d| cf(d as f64)))),
+            outcome: Outcome::Ok(o), tags: vec![format!("days:{}", days.map(|_| "some").unwrap_or("none")), format!("scenario_year:{}", year.map(|_| "some").unwrap_or("none"))],
+            input: json!({"simulation_days": days, "scenario_year": year, "train": train_json(&train)}), oracle_fail: fails, known: vec![], in_domain: true });
+    }
+}
+
 pub fn run(seed: u64, n: usize, sink: &mut Sink) {
+    { let mut rb = Rng::new(seed ^ 0xC11_B17D); builder_trip_cases(&mut rb, (n / 40).max(6), sink); }
     let mut r = Rng::new(seed ^ 0xC11);
     let n_full = n * 2 / 5;
     { let mut rf = r.fork(); full_cases(&mut rf, n_full, sink); }
